@@ -17,6 +17,7 @@ def judge(case):
     if info.get("accepted") and not viol and info.get("rows") is not None:
         viol += gradcheck.check_interleaved(lambda arrs, rg: cat.run_lib(case, arrs, rg), arrays, list(range(len(arrays))), case["op"], info["rows"])
         viol += gradcheck.check_twice(lambda arrs, rg: cat.run_lib(case, arrs, rg), arrays, list(range(len(arrays))), case["op"], info["rows"])
+        viol += gradcheck.check_freeze(lambda ts: cat.OPS[case["op"]].lib(harness.load(), ts, case.get("args") or {}), arrays, list(range(len(arrays))), case["op"], info["rows"])
     # the same Tensor object in several operand slots of ONE operation (x*x, concat([h, b, h]), x @ x, ...)
     n = len(arrays)
     pats = case.get("pats") or ["generic"] * n
